@@ -218,3 +218,33 @@ Proof.
   split; [vm_compute; reflexivity|]. split; [vm_compute; reflexivity|]. split; [vm_compute; reflexivity|].
   split; [exact sort_law_Q|]. split; [apply graph_lat_agrees|]. split; vm_compute; reflexivity.
 Qed.
+
+(* ---- (P) C16 for the REGENERATED post-processing (Proofs/LcdPostZ.v; integer latencies = the setting of Model/Parallel.v): it computes
+   Model/Parallel's dedup + sort_desc (lat_path, lat_sum, first-kept de-duplication, sort(reverse=True)) and then the dictionary of the code *)
+From Coq Require Import Permutation.
+From OV Require Import Model.Parallel Proofs.Parallel Proofs.LcdPostZ.
+
+Theorem C05gen_post_is_parallel_model : forall (I : Type) (get : I -> Z) (G : Type) (lat : G -> Z -> Z -> pres Z) heap dg off
+    (ps : list (Parallel.path * Z)),
+  (forall p t, In (p, t) ps -> p <> [] /\ zlat_along (lat dg) p t) ->
+  g_lcd_post ZNum get lat heap dg off (zall_nodes ps) [] = dict_of get heap (sort_desc (Parallel.dedup off [] (map fst ps))).
+Proof. intros. rewrite g_lcd_post_eq. apply post_model_is_parallel. assumption. Qed.
+Print Assumptions C05gen_post_is_parallel_model.
+
+(* ... so the returned dictionary does not depend on the order in which the paths were found / delivered *)
+Theorem C05gen_post_order_independent : forall (I : Type) (get : I -> Z) (G : Type) (lat : G -> Z -> Z -> pres Z) heap dg off
+    (ps ps' : list (Parallel.path * Z)),
+  (forall p t, In (p, t) ps -> p <> [] /\ zlat_along (lat dg) p t) -> Permutation ps ps' ->
+  g_lcd_post ZNum get lat heap dg off (zall_nodes ps) [] = g_lcd_post ZNum get lat heap dg off (zall_nodes ps') [].
+Proof. intros. rewrite !g_lcd_post_eq. apply post_model_perm_invariant; assumption. Qed.
+Print Assumptions C05gen_post_order_independent.
+
+(* ... in particular under every interleaving of the blocks the workers append (one block per instruction, g_extend_path) *)
+Theorem C05gen_post_any_interleaving : forall (I : Type) (get : I -> Z) (G : Type) (lat : G -> Z -> Z -> pres Z) heap dg off
+    (workers : list (list (list (Parallel.path * Z)))) (arrived : list (list (Parallel.path * Z))),
+  (forall p t, In (p, t) (List.concat arrived) -> p <> [] /\ zlat_along (lat dg) p t) ->
+  Interleave workers arrived ->
+  g_lcd_post ZNum get lat heap dg off (zall_nodes (List.concat arrived)) [] =
+  g_lcd_post ZNum get lat heap dg off (zall_nodes (List.concat (List.concat workers))) [].
+Proof. intros. rewrite !g_lcd_post_eq. apply post_model_any_interleaving; assumption. Qed.
+Print Assumptions C05gen_post_any_interleaving.
